@@ -88,6 +88,23 @@ def AdmissibleRun (T : Tables) : World → List Op → Prop
   | _, [] => True
   | w, op :: ops => Admissible w op ∧ AdmissibleRun T (step T w op) ops
 
+/-- The abstract side of the refinement: what a class is, as a function of the *declarations* only
+(`env`: class name ↦ its class body and MRO) — no heap, no definition order.  `fuel` bounds the depth of
+the inheritance chain. -/
+def pureOf (T : Tables) (env : Name → Option ClassDecl) : Nat → Name → Option ClassV
+  | 0, _ => none
+  | f + 1, n => (env n).map (fun d => pureDefine T (d.mro.tail.filterMap (pureOf T env f)) d)
+
+/-- a definition order consistent with inheritance: a class is defined with the body `env` gives it, after
+all classes of its MRO -/
+def Consistent (env : Name → Option ClassDecl) (w : World) : Op → Prop
+  | .define d => env d.name = some d ∧ ∀ m ∈ d.mro.tail, env m ≠ none → w.findClass m ≠ none
+  | _ => True
+
+def ConsistentRun (T : Tables) (env : Name → Option ClassDecl) : World → List Op → Prop
+  | _, [] => True
+  | w, op :: ops => Consistent env w op ∧ ConsistentRun T env (step T w op) ops
+
 /-- validation behaviour of the accessibles of an owner, for any validation function of datatypes -/
 def validateH {V O : Type} (val : DTree → V → O) (w : World) (o : Owner) (v : V) : List (Name × Option O) :=
   (describeH w o).map (fun nv => (nv.1, (nv.2.bind (·.tree)).map (fun t => val t v)))
